@@ -122,7 +122,11 @@ class Conduct(core.Scenario):
         items.sort(key=lambda x: x[0])
         for _, kind, x in items:
             if kind == 'post':
-                body = x.body if isinstance(x.body, str) else (x.body or b'').decode('utf-8')
+                try:
+                    body = x.body if isinstance(x.body, str) else (x.body or b'').decode('utf-8')
+                except UnicodeDecodeError:
+                    out.append(('polling', None, x.body, 'garbage'))
+                    continue
                 for seg in body.split('\x1e') if body else []:
                     try:
                         d = codec.ref_decode(seg)
@@ -149,6 +153,9 @@ class Conduct(core.Scenario):
             self.flag('connect_failed', 'connect(): done=%s exc=%r' % (self.conn.done, self.conn.exc), trigger=trig)
             return
         out = self.client_output()
+        junk = [(ch, d) for ch, t, d, k in out if k == 'garbage']
+        if junk:
+            self.flag('undecodable_output', 'the client put undecodable data on the wire: %r' % (junk[:2],), trigger=trig)
         # ---- PONG echo: one PONG with identical data per PING
         pings = [x[1:] for x in p.get('piggy', []) if x.startswith('2')]
         for name in p['pushes']:
